@@ -180,7 +180,7 @@ class TrackWorld(World):
                 "renew": r.choice([0.01, 0.05, 0.15]), "callable_faults": r.choice([0, 0, 0.15, 0.4]),
                 "np_time": r.random() < 0.08, "zones": r.random() < 0.1,
                 # the local zone of the process (a C-library global any component may have selected)
-                "tz": r.choice(ZONES) if r.random() < 0.12 else None}
+                "tz": r.choice(ZONES) if r.random() < 0.12 else None, "int_vals": r.random() < 0.1}
 
     @classmethod
     def deepen(cls, cfg, r):
@@ -248,6 +248,8 @@ class TrackWorld(World):
     # --------------------------------------------------------------- generator
     def _uval(self):
         self.counter += 1
+        if self.cfg.get("int_vals") and self.counter % 3 == 0:
+            return self.counter + 1000          # whole numbers stored as Python ints (counts, classes, flags)
         return self.counter + 0.5
 
     def _tag(self):
@@ -264,6 +266,8 @@ class TrackWorld(World):
             tf[6] = r.choice([1, 500, 999])
         # z carries the unique tag of the observation (no operation of the workload writes z);
         # x and y repeat so that zero-length legs and revisited positions occur
+        if self.cfg.get("int_vals") and r.random() < 0.4:
+            return [r.choice([0, 1, 3, -2, 1000]), r.choice([0, 2, -1, 7]), self._tag(), tf]       # coordinates given as ints
         return [r.choice([0.0, 1.0, 1.00002, 3.5, -2.0, 1000.25, r.uniform(-50, 50), r.choice([4.0e6, -7.5e6, 123456.5])]),
                 r.choice([0.0, 0.00001, 2.0, -1.5, 0.001, r.uniform(-50, 50)]), self._tag(), tf]
 
